@@ -8,6 +8,9 @@ import (
 	"net"
 	"testing"
 	"testing/synctest"
+	"time"
+
+	"bngverif/internal/vstat"
 
 	"bngverif/internal/pools"
 )
@@ -76,5 +79,19 @@ func TestReplayDistLeaseRemote(t *testing.T) {
 	})
 	if msg != "" {
 		t.Fatalf("%s", msg)
+	}
+}
+
+// KF-C01-8: PoolAllocator.AllocateWithOptions reads "existed", reserves, persists and rolls back without a lock of its
+// own. Two overlapping requests of one new subscriber; the first one's store write is held back and finally refused:
+// its rollback frees the address the second request has meanwhile returned to the subscriber.
+// (On a tree that serialises the two requests the second one waits; the long grace only bounds that wait.)
+func TestReplayPoolAllocOverlap(t *testing.T) {
+	lane := pkLane{impl: "poolalloc", cidr: "10.0.0.0/29", unit: 32, class: "replay", parked: pkOp{pkAlloc, 0}, fail: true, second: -1,
+		callers: [][]pkOp{{{pkRetransmit, 0}}}}
+	for _, r := range runLanes([]pkLane{lane}, 2*time.Second) {
+		if r.fe.kind != "" {
+			vstat.Fail(t, r.sig(r.fe.kind), "%s [%s]", r.fe.ms, r.l)
+		}
 	}
 }
